@@ -201,6 +201,70 @@ def model_projection(resp):
 # jobs
 
 
+_FULL_VARS = list(vgen.VAR_NAMES)
+_FULL_ATTRS = list(vgen.ATTR_NAMES)
+
+
+def gen_wf(rng, size):
+    """well-formed program; for a share of the programs names are drawn from a narrow pool, so that different
+    tasks reuse variable names for different struct types and different structs share attribute names"""
+    if rng.random() < 0.4:
+        vgen.VAR_NAMES = _FULL_VARS[:4]
+        vgen.ATTR_NAMES = _FULL_ATTRS[:11]
+    else:
+        vgen.VAR_NAMES = _FULL_VARS
+        vgen.ATTR_NAMES = _FULL_ATTRS
+    try:
+        return vgen.gen_wf_program(rng, size=size)
+    finally:
+        vgen.VAR_NAMES = _FULL_VARS
+        vgen.ATTR_NAMES = _FULL_ATTRS
+
+
+def gen_shadow_program(rng, fault=False):
+    """directed family: two tasks use the same variable name for different struct types whose equally named
+    attributes have different types; the same path text is passed to task calls and used in expressions in both.
+    fault=True: the second task uses its attribute with the operators that fit the first task's type."""
+    ta, tb = rng.choice([("number", "boolean"), ("number", "string"), ("boolean", "number")])
+    v = rng.choice(["part", "r", "obj"])
+    a = rng.choice(["size", "a", "state"])
+
+    def lit_of(ty):
+        return 1 if ty == "number" else True if ty == "boolean" else "x"
+
+    def expr_for(ty, path):
+        if ty == "number":
+            return {"binOp": ">", "left": path, "right": 1}
+        if ty == "boolean":
+            return {"binOp": "And", "left": path, "right": True}
+        return {"binOp": "<", "left": path, "right": '"m"'}
+
+    structs = [{"name": "SA", "attrs": [[a, ta], ["k", "number"]]}, {"name": "SB", "attrs": [[a, tb], ["k", "number"]]}]
+    use = {"number": "useNumber", "boolean": "useBoolean", "string": "useString"}
+    tasks = [{"name": "productionTask", "ins": [], "outs": [], "body": [{"k": "call", "name": "first", "ins": [], "outs": []},
+                                                                          {"k": "call", "name": "second", "ins": [], "outs": []}]}]
+    for name, sname, ty in (("first", "SA", ta), ("second", "SB", tb)):
+        ety = ta if (fault and name == "second") else ty
+        tasks.append({"name": name, "ins": [], "outs": [], "body": [
+            {"k": "svc", "name": "Get", "ins": [], "outs": [[v, sname]]},
+            {"k": "cond", "e": expr_for(ety, [v, a]), "passed": [{"k": "svc", "name": "Work", "ins": [v], "outs": []}], "failed": None},
+            {"k": "call", "name": use[ty], "ins": [[v, a]], "outs": []}]})
+    for ty in {ta, tb}:
+        tasks.append({"name": use[ty], "ins": [["x", ty]], "outs": [], "body": [{"k": "svc", "name": "Use", "ins": ["x"], "outs": []}]})
+    rest = tasks[1:]
+    rng.shuffle(rest)
+    prog = {"structs": structs if rng.random() < 0.5 else structs[::-1], "tasks": [tasks[0]] + rest if rng.random() < 0.5 else rest + [tasks[0]]}
+    return prog
+
+
+def job_shadow(args):
+    seed, fault = args
+    rng = random.Random(seed)
+    prog = gen_shadow_program(rng, fault)
+    text = vgen.print_program(prog, None)
+    return {"seed": seed, "fault": fault, "prog": prog, "text": text, "res": run_validator(text)}
+
+
 def job_wf(args):
     """C11 / C16 / correspondence on a well-formed program: layouts and a permutation"""
     seed, size = args
@@ -208,12 +272,14 @@ def job_wf(args):
     signal.signal(signal.SIGALRM, _alarm)
     signal.alarm(120)
     try:
-        prog = vgen.gen_wf_program(rng, size=size)
+        prog = gen_wf(rng, size)
         variants = []
         layouts = [None] + [random_layout(rng) for _ in range(2)]
         for li, lay in enumerate(layouts):
             p = copy.deepcopy(prog)
             text = vgen.print_program(p, lay)
+            if li > 0:
+                text = with_leading_lines(rng, p, text)
             r = run_validator(text)
             variants.append({"what": "layout %d %r" % (li, lay), "prog": p, "text": text, "res": r})
         pp = vgen.permute_definitions(copy.deepcopy(prog), rng)
@@ -227,6 +293,33 @@ def job_wf(args):
         return {"seed": seed, "timeout": True, "variants": []}
     finally:
         signal.alarm(0)
+
+
+def shift_lines(prog, k):
+    """all recorded line numbers move down by k (k leading lines were put in front of the text)"""
+    def walk_(x):
+        if isinstance(x, dict):
+            for key in ("line", "end_line", "e_line"):
+                if key in x and isinstance(x[key], int):
+                    x[key] += k
+            for v in x.values():
+                walk_(v)
+        elif isinstance(x, list):
+            for v in x:
+                walk_(v)
+    walk_(prog)
+
+
+def with_leading_lines(rng, prog, text):
+    """blank lines / a comment header in front of the program (layout the language treats as insignificant)"""
+    if rng.random() < 0.35:
+        k = rng.randint(1, 5)
+        head = "".join(rng.choice(["\n", "# header comment\n", "   \n"]) for _ in range(k))
+        if "\r\n" in text:
+            head = head.replace("\n", "\r\n")
+        shift_lines(prog, k)
+        return head + text
+    return text
 
 
 def random_layout(rng):
@@ -299,7 +392,7 @@ def job_faults(args):
     signal.alarm(180)
     out = []
     try:
-        prog = vgen.gen_wf_program(rng, size=size)
+        prog = gen_wf(rng, size)
         for mp_, info in vgen.sample_faults(prog, rng, k):
             if info["cls"] in EXCLUDED_CLASSES:
                 continue
@@ -307,6 +400,7 @@ def job_faults(args):
                 continue
             lay = random_layout(rng) if rng.random() < 0.5 else None
             text = vgen.print_program(mp_, lay)
+            text = with_leading_lines(rng, mp_, text)
             target = vgen.resolve_target(mp_, info)
             r = run_validator(text)
             rx = run_validator(text, extension=True)
@@ -396,7 +490,7 @@ def job_text(args):
     signal.alarm(180)
     out = []
     try:
-        prog = vgen.gen_wf_program(rng, size=size)
+        prog = gen_wf(rng, size)
         base = vgen.print_program(copy.deepcopy(prog), random_layout(rng) if rng.random() < 0.5 else None)
         for _ in range(k):
             kind, text = mutate_text(rng, base)
@@ -455,6 +549,38 @@ def typed_value(rng, ty, structs, depth=0):
     return {a: typed_value(rng, t, structs, depth + 1) for a, t in s["attrs"]}
 
 
+def has_call_cycle(prog):
+    """the harness's own look at the call graph (task calls, Parallel branches, parallel-loop bodies, at any depth)"""
+    graph = {}
+    for t in prog["tasks"]:
+        callees = set()
+        for st in progs.walk(t["body"]):
+            if st["k"] == "call":
+                callees.add(st["name"])
+            elif st["k"] == "par":
+                callees.update(c["name"] for c in st["calls"])
+            elif st["k"] == "ploop":
+                if st.get("call"):
+                    callees.add(st["call"]["name"])
+                for b in st.get("body") or []:
+                    if b.get("k") == "call":
+                        callees.add(b["name"])
+        graph.setdefault(t["name"], callees)
+    state = {}
+
+    def dfs(n):
+        if state.get(n) == 1:
+            return True
+        if state.get(n) == 2 or n not in graph:
+            return False
+        state[n] = 1
+        r = any(dfs(m) for m in graph[n])
+        state[n] = 2
+        return r
+
+    return any(dfs(n) for n in graph)
+
+
 def job_run_accepted(args):
     """drive an accepted program to the end with well-typed values and a random completion order"""
     import impl
@@ -464,7 +590,7 @@ def job_run_accepted(args):
     signal.signal(signal.SIGALRM, _alarm)
     signal.alarm(120)
     try:
-        prog = vgen.gen_wf_program(rng, size=size)
+        prog = gen_wf(rng, size)
         label = "wf"
         if mode == "fault":
             cands = vgen.sample_faults(prog, rng, 3)
@@ -480,6 +606,10 @@ def job_run_accepted(args):
             signal.alarm(0)
             return rec
         rec["shapes"] = sorted(progs.ploop_shapes(prog))
+        rec["call_cycle"] = has_call_cycle(prog)
+        if rec["call_cycle"]:
+            signal.alarm(0)
+            return rec
         structs = {s["name"]: s for s in prog["structs"]}
         tm = {t["name"]: t for t in prog["tasks"]}
         nq = [0]
@@ -504,7 +634,9 @@ def job_run_accepted(args):
             return v
 
         imm_bits = [rng.random() < 0.3 for _ in range(5)]
-        run = impl.Run(text, ids="test", answers=answers, imm=lambda k: imm_bits[k % 5])
+        other_bits = [rng.random() < 0.5 for _ in range(4)] if rng.random() < 0.3 else [False]
+        run = impl.Run(text, ids="test", answers=answers, imm=lambda k: imm_bits[k % 5],
+                       imm_other=lambda k: other_bits[k % len(other_bits)])
         rec["ctor_exc"] = run.ctor_exc
         if run.s is None:
             signal.alarm(0)
@@ -547,7 +679,8 @@ def falsify(v):
 def near_valid(prog, rng):
     """near-valid variants named by the property: recursion, zero limits, undeclared limit variables"""
     p = copy.deepcopy(prog)
-    kind = rng.choice(["self_recursion", "mutual_recursion", "zero_limit", "undeclared_limit", "string_condition"])
+    kind = rng.choice(["self_recursion", "mutual_recursion", "zero_limit", "undeclared_limit", "string_condition",
+                       "recursion_in_parallel_loop", "recursion_in_parallel"])
     tasks = p["tasks"]
     if kind == "self_recursion":
         t = rng.choice(tasks)
@@ -556,6 +689,12 @@ def near_valid(prog, rng):
         a, b = rng.sample(tasks, 2)
         a["body"].append({"k": "call", "name": b["name"], "ins": [], "outs": []})
         b["body"].append({"k": "call", "name": a["name"], "ins": [], "outs": []})
+    elif kind == "recursion_in_parallel_loop":
+        t = rng.choice([x for x in tasks if not x.get("ins")] or tasks)
+        t["body"].append({"k": "ploop", "var": "zq", "limit": 1, "call": {"k": "call", "name": t["name"], "ins": [], "outs": []}})
+    elif kind == "recursion_in_parallel":
+        t = rng.choice([x for x in tasks if not x.get("ins")] or tasks)
+        t["body"].append({"k": "par", "calls": [{"k": "call", "name": t["name"], "ins": [], "outs": []}]})
     elif kind == "zero_limit":
         for t in tasks:
             for st in progs.walk(t["body"]):
@@ -657,7 +796,7 @@ def _run(ctx, pool, res):
     n_wf = {"C11": 220, "C16": 60, "C10": 40, "C19": 40, "C09": 0}[prop] * (1 if quick else 10)
     n_fault = {"C10": 200, "C19": 200, "C16": 60, "C11": 30, "C09": 0}[prop] * (1 if quick else 10)
     n_text = {"C16": 220, "C10": 0, "C11": 0, "C19": 0, "C09": 0}[prop] * (1 if quick else 10)
-    n_run = {"C09": 260}.get(prop, 0) * (1 if quick else 10)
+    n_run = {"C09": 160}.get(prop, 0) * (1 if quick else 10)
     wf_jobs = [(seed * 7919 + i, size) for i in range(n_wf)]
     fault_jobs = [(seed * 104729 + i, size, 4) for i in range(n_fault)]
     text_jobs = [(seed * 1299709 + i, size, 6) for i in range(n_text)]
@@ -703,6 +842,21 @@ def _run(ctx, pool, res):
             ex = r["ext"]
             if ex["exc"] is None and ex["valid"] != r["variants"][0]["res"]["valid"]:
                 add_violation(res, seen, "C19", "formats_disagree", "console and extension format give different verdicts", r["variants"][0]["text"])
+    # directed family: same variable name / path text with different types in different tasks ------------
+    shadow = pool.map(job_shadow, [(seed * 31 + i, prop in ("C10", "C19") and i % 2 == 1) for i in range(24 if quick else 240)]) \
+        if prop in ("C10", "C11", "C16") else []
+    for r in shadow:
+        n_eval += 1
+        rv = r["res"]
+        distinct.add(hashlib.sha256(r["text"].encode()).hexdigest())
+        if rv["exc"]:
+            add_violation(res, seen, "C16", "raises", "validation raised %s on a shadowing program" % rv["exc"], r["text"])
+        elif not r["fault"] and (rv["valid"] is not True or rv["out"]):
+            add_violation(res, seen, "C11", "wf_rejected", "a well-formed program (same variable name for different struct types in two tasks) is rejected: %s" % rv["out"][:300], r["text"])
+        elif r["fault"] and rv["valid"] is not False:
+            add_violation(res, seen, "C10", "fault_accepted_expr_ill_typed_operand_shadowed", "ill-typed operand accepted in a task whose variable shares its name with a differently typed variable of another task", r["text"], {"cls": "expr_ill_typed_operand"})
+        if not rv["exc"]:
+            model_reqs.append(("shadow", r["prog"], rv, r["text"]))
     # faults ----------------------------------------------------------------------------------------
     for r in fault_res:
         for f in r["faults"]:
@@ -785,7 +939,9 @@ def _run(ctx, pool, res):
         nontrivial.add(key)
         if r.get("shapes"):
             run_hist["known_ploop_shape"] = run_hist.get("known_ploop_shape", 0) + 1
-        if r.get("ctor_exc"):
+        if r.get("call_cycle"):
+            add_violation(res, seen, "C09", "accepted_recursive_program", "a program whose tasks call each other recursively (%s) is accepted: the scheduler cannot unfold it" % r["label"], r["text"], {"label": r["label"], "prog": r.get("prog")})
+        elif r.get("ctor_exc"):
             add_violation(res, seen, "C09", "construction_raises_" + r["ctor_exc"], "accepted program (%s): Scheduler construction raised %s" % (r["label"], r["ctor_exc"]), r["text"], {"label": r["label"]})
         elif r.get("run_exc") == "ZeroDivisionError" and " / " in r["text"]:
             run_hist["known_K11_division_by_zero"] = run_hist.get("known_K11_division_by_zero", 0) + 1
@@ -796,6 +952,31 @@ def _run(ctx, pool, res):
                 add_violation(res, seen, "C09", "run_raises_" + r["run_exc"], "accepted program (%s): %s escaped start()/fire_event(): %s" % (r["label"], r["run_exc"], r.get("run_exc_msg")), r["text"], {"label": r["label"]})
         elif not r.get("finished") and r.get("pending") == 0 and not r.get("shapes"):
             add_violation(res, seen, "C09", "does_not_complete", "accepted program (%s): nothing outstanding but the order did not complete" % r["label"], r["text"], {"label": r["label"]})
+    # C09 also over the scheduling family (valid programs, all completion orders incl. cross re-entrant ones):
+    # any exception escaping the scheduler is a violation of soundness
+    if prop == "C09":
+        import sched_family
+
+        sjobs = [(seed * 2750159 + i, {"hist": False, "gen": {}, "ids": "test", "mutate": None, "depth": 3, "max_ops": 40})
+                 for i in range(240 if quick else 2400)]
+        for r in pool.map(sched_family.job_gen_run, sjobs, chunksize=4):
+            if not r.get("valid"):
+                continue
+            n_eval += 1
+            key = hashlib.sha256((r["case"]["text"] + json.dumps(r["case"].get("ops"))).encode()).hexdigest()
+            distinct.add(key)
+            nontrivial.add(key)
+            run_hist["sched_family/accepted"] = run_hist.get("sched_family/accepted", 0) + 1
+            deep = any(c.get("exc") == "RecursionError" and len(c["out"]) > 150 for c in r["calls"])
+            for v in r["viol"]:
+                if deep:
+                    continue
+                if v["prop"] == "C09":
+                    add_violation(res, seen, "C09", "run_raises_in_schedule", v["msg"], r["case"]["text"],
+                                  {"sched_case": sched_family.strip_case(r["case"])})
+                elif v["prop"] == "C01" and v["rule"] in ("stall", "completion_without_effect"):
+                    add_violation(res, seen, "C09", "does_not_complete_in_schedule", v["msg"], r["case"]["text"],
+                                  {"sched_case": sched_family.strip_case(r["case"])})
     # model correspondence -----------------------------------------------------------------------------------
     disagreements = []
     if ctx["model_ok"] and model_reqs:
@@ -861,6 +1042,16 @@ def job_replay(prop, obj):
     text = obj.get("text", "")
     rule = obj.get("rule", "")
     out = []
+    if obj.get("sched_case"):
+        import sched_family
+
+        rr = sched_family.job_run(obj["sched_case"])
+        for v in rr["viol"]:
+            if v["prop"] == "C09":
+                out.append(("run_raises_in_schedule", v["msg"]))
+            elif v["prop"] == "C01" and v["rule"] in ("stall", "completion_without_effect"):
+                out.append(("does_not_complete_in_schedule", v["msg"]))
+        return out
     r = run_validator(text)
     if r["exc"]:
         out.append(("raises_" + r["exc"] if prop == "C16" else "raises", "validation raised %s: %s" % (r["exc"], r.get("exc_msg", ""))))
@@ -878,6 +1069,9 @@ def job_replay(prop, obj):
         span = obj["span"]
         if not any(span[0] <= l <= span[1] for l in lines):
             out.append((rule, "reported lines %r construct %r" % (lines, span)))
+    if prop == "C09" and r["valid"] and rule == "accepted_recursive_program" and obj.get("prog") and has_call_cycle(obj["prog"]):
+        out.append((rule, "still accepted"))
+        return out
     if prop == "C09" and r["valid"]:
         import impl
 
